@@ -143,7 +143,12 @@ def shards(tier):
         for ax in (0, 1):
             out.append(('slicer_small', {'ser': ser, 'axis_sel': ax}))
             out.append(('unknown_id_refused', {'ser': ser, 'axis_sel': ax}))
-            if tier != 'quick' or ser in (0, 2):
-                for p1, p2 in (((1, 2), (2, 9)) if tier == 'quick' else [(a_, b_) for a_ in range(0, 9) for b_ in range(a_ + 1, 10)]):
+            if tier != 'quick':
+                for p1, p2 in [(a_, b_) for a_ in range(0, 9) for b_ in range(a_ + 1, 10)]:
                     out.append(('slicer_big', {'ser': ser, 'axis_sel': ax, 'p1': p1, 'p2': p2}))
+    if tier == 'quick':
+        # positions mixing digit counts / hash-table slots; the serialisation stays symbolic
+        for ax in (0, 1):
+            for p1, p2, p3 in ((1, 2, 8), (2, 9, 10), (0, 5, 10), (3, 8, 9)):
+                out.append(('slicer_big', {'axis_sel': ax, 'p1': p1, 'p2': p2, 'p3': p3}))
     return out
